@@ -32,6 +32,7 @@ from .execution import (
     check_abort_no_retry,
     check_breaker,
     classify_for_breaker,
+    emit_admission_event,
     make_attempt_context,
     record_cancel,
     record_failure,
@@ -229,7 +230,7 @@ class AsyncPolicy:
         # Circuit breaker check
         if ctx.breaker is not None:
             decision = ctx.breaker.allow()
-            ctx.emit_breaker_event(decision.event, decision.state)
+            emit_admission_event(ctx, decision)
             if not decision.allowed:
                 return build_circuit_open_outcome(ctx, decision.state.value)
 
